@@ -46,7 +46,8 @@ fn path_fields(f: &[&str]) -> Vec<usize> {
     match f[0] {
         "symlink" | "move_p" | "copy" | "copy_b" => vec![1, 2],
         "macro" => match f.get(1).copied().unwrap_or("") {
-            "readlink_abs" | "copyfile" | "symlink" => vec![2, 3],
+            // (an absolute expected value is a sandbox path on the real filesystem; relative ones are left alone)
+            "readlink" | "readlink_abs" | "copyfile" | "symlink" => vec![2, 3],
             _ => vec![2],
         },
         _ => vec![1],
